@@ -12,7 +12,7 @@ open LyModel LyModel.Tree
 
 /-- the effect of a leaf / leaf-list diff node on the instance at its place; outer `none`: apply fails -/
 def termEff (S : Schema) (inh : Option Op) (d : DNode) (e : Option DNode) : Option (Option DNode) :=
-  match effOp inh d, e with
+  match effOp d inh, e with
   | some .create, none => some (some (mkCreated d))
   | some .delete, some _ => some none
   | some .replace, some x =>
@@ -22,16 +22,16 @@ def termEff (S : Schema) (inh : Option Op) (d : DNode) (e : Option DNode) : Opti
   | _, _ => none
 
 /-- `termEff` is what `applyNode` does, and nothing else changes -/
-theorem apply_term_eff {S : Schema} (K : KeyOrder S) {L : List DNode} {d : DNode} {n : Nat} {hp : Bool} {inh : Option Op}
+theorem apply_term_eff {S : Schema} {fx : Fixes} (K : KeyOrder S) {L : List DNode} {d : DNode} {n : Nat} {hp : Bool} {inh : Option Op}
     {e' : Option DNode} (hgL : goodT S L = true) (hd : Dom S d) (hdt : d.isTerm = true) (hdk : S.isKey d.sid = false)
     (hkb : KeysBelow S d L) (hn : 0 < n) (h : termEff S inh d (look S L d) = some e') :
-    ∃ L', applyNode S n L hp inh d = .ok L' ∧ goodT S L' = true ∧ keysOf S L' = keysOf S L ∧ Local S d L L' ∧
+    ∃ L', applyNode S fx n L hp inh d = .ok L' ∧ goodT S L' = true ∧ keysOf S L' = keysOf S L ∧ Local S d L L' ∧
       look S L' d = e' := by
   obtain ⟨k, rfl⟩ : ∃ k, n = k + 1 := ⟨n - 1, by omega⟩
   unfold termEff at h
   have hSt : S.isTerm d.sid = true := by rw [← hd.typed]; exact hdt
   have hgd : goodN S d = true := goodN_iff.mpr ⟨hd, by rw [kids_term hdt]; exact goodT_nil S⟩
-  cases hop : effOp inh d with
+  cases hop : effOp d inh with
   | none => simp [hop] at h
   | some op =>
     cases hl : look S L d with
